@@ -290,6 +290,26 @@ func (s *scheduler) lockOp(i *interpreter, l *lockState, write, acquire bool, wh
 	return nil
 }
 
+// tryLockOp: a scheduling point, then an acquisition that fails instead of
+// blocking (a pending writer makes TryRLock fail, like the real RWMutex).
+func (s *scheduler) tryLockOp(i *interpreter, l *lockState, write bool) value {
+	t := s.curT()
+	id := t.id
+	s.schedule(t)
+	if l.writer >= 0 || (write && l.totalReaders() > 0) || (!write && l.pendW > 0) {
+		return false
+	}
+	if write {
+		l.writer = id
+		t.vc.join(s.lockVC(s.wvc, l))
+		t.vc.join(s.lockVC(s.rvc, l))
+	} else {
+		l.readers[id]++
+		t.vc.join(s.lockVC(s.wvc, l))
+	}
+	return true
+}
+
 // access records one memory access of the running thread and checks it
 // against earlier accesses of other threads (happens-before).
 func (s *scheduler) access(cell interface{}, write bool, fr *frame, pos token.Pos) {
